@@ -117,8 +117,39 @@ func genTree(c *core.Ctx) *core.N {
 	if g.Chance(0.12) {
 		n = rootTip(n, "rt", g)
 	}
+	if g.Chance(0.25) {
+		lookAlikeNames(g, n)
+	}
 	core.NumberEdges(n)
 	return n
+}
+
+// look-alike tip names: numbers, numbers with leading zeros or a sign, alphanumeric mixes — a comparator
+// that is "numeric-aware" orders them differently from the bytewise order (or not consistently at all)
+var lookAlikes = []string{"1", "2", "7", "07", "10", "010", "1a", "1e1", "2a", "02", "20", "9", "+5", "-3", "a1",
+	"3", "03", "003", "11", "011", "1A", "100", "1e2", "0x10", "2 ", " 2"}
+
+func lookAlikeNames(g *core.G, n *core.N) {
+	perm := g.R.Perm(len(lookAlikes))
+	i := 0
+	used := map[string]bool{}
+	for _, nm := range n.TipNames() {
+		used[nm] = true
+	}
+	var rec func(x *core.N, isRoot bool)
+	rec = func(x *core.N, isRoot bool) {
+		if len(x.Kids) == 0 && !isRoot && i < len(perm) && g.Chance(0.8) {
+			if !used[lookAlikes[perm[i]]] { // (the core generator's odd names include "1e1", "100" …)
+				x.Name = lookAlikes[perm[i]]
+				used[x.Name] = true
+			}
+			i++
+		}
+		for _, k := range x.Kids {
+			rec(k, false)
+		}
+	}
+	rec(n, true)
 }
 
 // ---------------------------------------------------------------------------
@@ -443,6 +474,13 @@ func indexCase(c *core.Ctx) {
 		return
 	}
 	script := genScript(c, n)
+	seen := map[string]bool{}
+	for _, nm := range n.TipNames() {
+		if seen[nm] {
+			dup = true
+		}
+		seen[nm] = true
+	}
 	if dup && len(script) > 0 && script[len(script)-1] == "internal" {
 		script = script[:len(script)-1] // ReinitInternalIndexes presupposes a usable tip index
 	}
@@ -1090,7 +1128,9 @@ func doQuartet(c *core.Ctx, q, q2 [4]uint, cp uint64, lf string) {
 func quartetCase(c *core.Ctx, i int) {
 	g := c.G
 	rng := 6
-	if g.Chance(0.3) {
+	if g.Chance(0.5) {
+		rng = 200
+	} else if g.Chance(0.3) {
 		rng = 1000
 	}
 	var q [4]uint
@@ -1119,6 +1159,28 @@ func quartetCase(c *core.Ctx, i int) {
 		// same taxa, another presentation
 		p := perms4[g.Intn(24)]
 		q2 = [4]uint{q[p[0]], q[p[1]], q[p[2]], q[p[3]]}
+	} else if g.Chance(0.5) {
+		// OTHER taxa with the SAME hash code: 31*(31*(31*(31+i1)+i2)+i3)+i4 over the sorted taxa is unchanged
+		// by (i3, i4) -> (i3+1, i4-31), (i2, i3) -> (i2+1, i3-31), (i1, i2) -> (i1+1, i2-31), also combined
+		a := uint(g.Intn(60))
+		b := a + 1 + uint(g.Intn(40))
+		cc := b + 34 + uint(g.Intn(40))
+		d := cc + 34 + uint(g.Intn(60))
+		q = [4]uint{a, b, cc, d}
+		switch g.Intn(4) {
+		case 0:
+			q2 = [4]uint{a, b, cc + 1, d - 31}
+		case 1:
+			q2 = [4]uint{a, b + 1, cc - 31, d}
+		case 2:
+			q2 = [4]uint{a, b + 1, cc - 30, d - 31}                  // two steps: (i2+1, i3-31) then (i3+1, i4-31)
+		default:
+			q2 = [4]uint{a, b, cc + 2, d - 62}
+		}
+		// both in a random presentation
+		p1, p2 := perms4[g.Intn(24)], perms4[g.Intn(24)]
+		q = [4]uint{q[p1[0]], q[p1[1]], q[p1[2]], q[p1[3]]}
+		q2 = [4]uint{q2[p2[0]], q2[p2[1]], q2[p2[2]], q2[p2[3]]}
 	}
 	doQuartet(c, q, q2, caps[i%len(caps)], lfs[(i/len(caps))%len(lfs)])
 }
@@ -1202,6 +1264,35 @@ func quartetsCase(c *core.Ctx, i int) {
 	}
 	// IndexQuartets allocates 12 800 000 buckets: only now and then
 	doQuartets(c, n, g.Chance(0.5), i%c.Scale(12, 40) == 0)
+}
+
+// bigQuartetsCase: more than 64 tips with a single branch carrying quartets (a polytomy of three tips
+// t00, t01, t30 under a root polytomy): 5859 quartets over tip indexes up to 65, among them pairs over
+// different taxa with the same hash code ((0,1|2,35) and (0,1|3,4) …), enumerated and put in IndexQuartets.
+func bigQuartetsCase(c *core.Ctx) {
+	g := c.G
+	n := 66 + g.Intn(3)
+	left := map[int]bool{0: true, 1: true, 30 + g.Intn(3): true}
+	root := &core.N{}
+	l := &core.N{E: core.NewE()}
+	l.E.Len = 1
+	var rest []*core.N
+	for i := 0; i < n; i++ {
+		x := &core.N{Name: fmt.Sprintf("t%02d", i), E: core.NewE()}
+		x.E.Len = float64(g.Intn(16)) / 8
+		if left[i] {
+			l.Kids = append(l.Kids, x)
+		} else {
+			rest = append(rest, x)
+		}
+	}
+	g.R.Shuffle(len(rest), func(i, j int) { rest[i], rest[j] = rest[j], rest[i] })
+	at := g.Intn(len(rest))
+	root.Kids = append(root.Kids, rest[:at]...)
+	root.Kids = append(root.Kids, l)
+	root.Kids = append(root.Kids, rest[at:]...)
+	core.NumberEdges(root)
+	doQuartets(c, root, false, true)
 }
 
 // ---------------------------------------------------------------------------
@@ -1382,6 +1473,9 @@ func Run(c *core.Ctx) {
 	}
 	for i, nq := 0, c.Scale(60, 1500); i < nq; i++ {
 		quartetsCase(c, i)
+	}
+	for i, nb := 0, c.Scale(1, 4); i < nb; i++ {
+		bigQuartetsCase(c)
 	}
 	nm := c.Scale(300, 5000)
 	for i := 0; i < nm; i++ {
